@@ -93,6 +93,14 @@ where
     let mut snap_used: Vec<u32> = vec![0; plan.slots];
     let mle = MleJaccard::new(plan.setp.b(), plan.m as u64, plan.setp.a());
     let slack = sum_order_bound(plan.m);
+    // decoy: an unrelated sketcher of another size is used and polled first in this thread (per-thread or
+    // process-wide scratch state of the estimators must not leak into the nodes of this run)
+    {
+        let mut decoy = SetSketcher::<I, u64, H>::new(plan.setp.params(2 * plan.m + 3), BuildHasherDefault::<H>::default());
+        decoy.sketch_slice(&[0xdec0_u64, 0xdec1]).unwrap();
+        std::hint::black_box(decoy.get_cardinal_stats());
+        ctx.count("fault:decoy-sketcher-of-other-size-polled-first");
+    }
     let mut merges = 0u64;
     let mut streamed_after_merge = false;
     let mut merged_nodes: BTreeSet<usize> = BTreeSet::new();
